@@ -425,6 +425,18 @@ func (t *ReadTran) fkeyOutputExists(table string, iIndex int, key string) bool {
 	return idx.Lookup(key) != 0
 }
 
+// ckCurrent checks that off is the current version of the record.
+// Two copies of one record can be updated or deleted independently,
+// the second one is then operating on a version the transaction has replaced.
+// Not all of these cases are caught by combining the index entries,
+// e.g. when the record was added, or its key was changed, in this transaction.
+func (t *UpdateTran) ckCurrent(table string, key string, off uint64, msg string) {
+	if t.GetIndexI(table, 0).Lookup(key) != off {
+		t.Abort()
+		panic(msg)
+	}
+}
+
 func (t *UpdateTran) Delete(th *core.Thread, table string, off uint64) {
 	trace.Dbms.Println("tran Delete", table, off)
 	t.write()
@@ -437,6 +449,7 @@ func (t *UpdateTran) Delete(th *core.Thread, table string, off uint64) {
 		keys[i] = is.Key(rec)
 		t.fkeyDeleteBlock(ts, i, keys[i], schema.CascadeDeletes)
 	}
+	t.ckCurrent(table, keys[0], off, "update & delete on same record")
 	t.ck(t.db.ck.Delete(t.ct, table, off, keys))
 	func() {
 		defer func() {
@@ -621,6 +634,7 @@ func (t *UpdateTran) update(th *core.Thread, table string, oldoff uint64, newrec
 			}
 		}
 	}
+	t.ckCurrent(table, oldkeys[0], oldoff, "update & update on same record")
 	t.ck(t.db.ck.Update(t.ct, table, oldoff, oldkeys, newkeys))
 	ti = t.getRwInfo(table)
 	d := int64(len(newrec)) - int64(len(oldrec))
